@@ -36,6 +36,9 @@ MACROS = (
     A.macro("m4", ("c", "i"), A.seq(A.loop("c", A.seq(A.gate("g", A.item("q", "i")))), A.gate("h", A.item("a", "i"), "c"))),
     # parameters shadowing header names (alias a, let n), one unused
     A.macro("m5", ("a", "n", "u"), A.par(A.gate("g", "a"), A.gate("h", A.item("q", "n"), "n"))),
+    # a parameter named like the let that a header alias (c = q[k]) was declared with: the alias must keep its
+    # header meaning inside the body, whatever the parameter is bound to
+    A.macro("m6", ("k",), A.seq(A.gate("g", "c"), A.gate("h", A.item("q", "k"), 2.0))),
 )
 
 LEAVES = (
@@ -49,6 +52,8 @@ LEAVES = (
     A.gate("m3", "c"),
     A.gate("m4", "n", 1),
     A.gate("m5", "c", 0, "x"),
+    A.gate("m6", 2),
+    A.gate("h", A.item("q", "n"), "n"),  # textually identical to a statement of m5, where n is a parameter
 )
 
 
@@ -203,6 +208,20 @@ BASE = A.prog(
         A.loop("n", A.seq(A.gate("m3", "c"))),
         A.sub("n", A.gate("g2", A.item("q", 0), A.item("b", 1)), A.loop(2, A.seq(A.gate("g", A.item("q", "k"))))),
         A.gate("m2", "b", 0.25),
+    ),
+)
+
+
+# a second base for the thorough tier: other features next to each other (parameters as counts and indices,
+# shadowing parameters, an alias captured by a parameter name, nested loops, a parallel block of macro calls)
+BASE2 = A.prog(
+    HEADER_RICH,
+    MACROS
+    + (
+        A.par(A.gate("m4", 1, 0), A.seq(A.gate("g", A.item("q", 1)), A.gate("m6", 1))),
+        A.loop(2, A.seq(A.loop("k", A.par(A.gate("m5", "c", 2, 0.5), A.gate("g", A.item("b", 0)))), A.gate("h", A.item("q", "n"), "n"))),
+        A.sub(None, A.gate("m6", 2), A.par(A.gate("g", A.item("q", 0)), A.seq(A.gate("m", "c"), A.gate("g2", A.item("a", 1), A.item("q", "k"))))),
+        A.seq(A.loop(0, A.seq(A.gate("m3", A.item("q", 2)))), A.sub(2, A.gate("m2", "a", "x"))),
     ),
 )
 
